@@ -253,9 +253,9 @@ class C09(BaseCheck):
             others = texts[:2]
         elif roll < 0.15:
             case['class'] = 'scalar'
-            ver = k.choice(['2.0', '3.0', '3.0'])
+            ver = k.choice(['2.0', '3.0', '3.0', '3.0', '2.5', '4.0', '1.0', '3.0.1'])     # the version is the caller's argument, official or not
             case['ver'] = ver
-            base = r.choice(zincpeer.SCALARS_3 if ver == '3.0' else zincpeer.SCALARS_2)
+            base = r.choice(zincpeer.SCALARS_3 if ver not in ('2.0', '1.0') else zincpeer.SCALARS_2)
             case['base'] = base
             others = list(zincpeer.SCALARS_3)
             deliveries.append({'text': base, 'faults': [], 'must_reject': None})
@@ -412,9 +412,9 @@ class C09(BaseCheck):
         if case.get('pint'):
             self.hszinc.use_pint(True)       # process-wide flag; the child is discarded after the run
         with warnings.catch_warnings(record=True) as w:
-            if case.get('warn_error') and case['class'] != 'scalar':
-                # for the scalar API the version is the caller's own argument, so a warning the caller
-                # asked to be raised is the caller's; for grids the version comes from the document
+            if case.get('warn_error'):
+                # a host application that promotes warnings to errors: hszinc's "unsupported version" warning is
+                # then raised inside the parse, and must still come out as ZincParseException / a ValueError
                 warnings.simplefilter('error')
             else:
                 warnings.simplefilter('always')
@@ -422,7 +422,7 @@ class C09(BaseCheck):
             res['stats']['probe.version_warnings'] = len(w)
             if case.get('pint'):
                 res['stats']['config.pint_mode_runs'] = 1
-            if case.get('warn_error') and case['class'] != 'scalar':
+            if case.get('warn_error'):
                 res['stats']['config.warnings_as_errors_runs'] = 1
             return res
 
